@@ -20,7 +20,7 @@ class C16:
     coq_timeout = 1500
     model_targets = ["Pack.vo", "Corr/C16.vo"]
     proof_target = "Props/C16.vo"
-    theorems = ["C16_total", "C16_complete", "C16_strict_iff", "C16_sound_partial", "C16_refuted_unterminated", "C16_every_depth_accepted"]
+    theorems = ["C16_total", "C16_complete", "C16_grammar_unambiguous", "C16_strict_iff", "C16_sound_partial", "C16_refuted_unterminated", "C16_every_depth_accepted"]
     allowed_axioms = []
     coq_header = "From Rdest Require Import Base BCodec BGrammar Corr.C16.\nOpen Scope N_scope.\n"
     corr_name = "BDecoder::from_array vs BCodec.decode"
